@@ -17,6 +17,10 @@ TICK = 1_000_000_000
 
 
 def scratch_base():
+    # NB: the sandbox path has a fixed length (zero-padded pid and counter):
+    # the cache file stores absolute paths, so its compressed size - and with
+    # it every byte offset used by the corruption classes - would otherwise
+    # depend on the process id.
     for cand in ('/dev/shm', os.environ.get('TMPDIR') or '/tmp'):
         if os.path.isdir(cand) and os.access(cand, os.W_OK):
             return os.path.join(cand, 'fbverif')
@@ -38,7 +42,7 @@ class Clock:
 class Sandbox:
     def __init__(self, cache_rel='cache.gz'):
         base = os.path.join(
-            scratch_base(), '%d_%d' % (os.getpid(), next(_counter)))
+            scratch_base(), '%07d_%06d' % (os.getpid(), next(_counter)))
         if os.path.exists(base):
             shutil.rmtree(base)
         os.makedirs(base)
